@@ -6,6 +6,7 @@ import XtModel.Model.Output
 import XtModel.Model.Input
 import XtModel.Model.Detect
 import XtModel.Model.TomlOrder
+import XtModel.Model.Faults
 import XtModel.Model.Json
 
 /-!
@@ -388,6 +389,21 @@ def json (fs : List String) : String :=
     | none => "bad-case"
   | _ => "bad-case"
 
+/-! ### writeall: `<limit|-> <pieces|-> <call-hex>/<call-hex>…` -/
+def faults (fs : List String) : String :=
+  match fs with
+  | ["writeall", limit, pieces, calls] =>
+    let lim : Option (Option Nat) := if limit = "-" then some none else limit.toNat?.map some
+    match lim, parseNats pieces, (calls.splitOn "/").mapM parseHex with
+    | some l, some ps, some cs =>
+      let (r, w) := Xt.Faults.writeAlls ⟨[], l, ps⟩ cs
+      (match r with
+        | .ok () => "ok"
+        | .error .fault => "err:fault"
+        | .error .writeZero => "err:writezero") ++ " " ++ toHex w.accepted
+    | _, _, _ => "bad-case"
+  | _ => "bad-case"
+
 def answer (fs : List String) : String :=
   match fs with
   | "encdetect" :: _ | "reencode" :: _ | "reencstream" :: _ => encoding fs
@@ -396,6 +412,7 @@ def answer (fs : List String) : String :=
   | "handle" :: _ => handle fs
   | "detectlist" :: _ | "mpmarker" :: _ => detectEng fs
   | "tomlorder" :: _ => tomlorder fs
+  | "writeall" :: _ => faults fs
   | "chunker" :: _ | "guards" :: _ => chunker fs
   | "frame" :: _ | "tomlout" :: _ => output fs
   | "json" :: _ | "jsonstr" :: _ | "jsonnum" :: _ | "jsondetect" :: _ => json fs
